@@ -834,10 +834,12 @@ class Polygon(Shape2D):
         """
         old_centroid = self.centroid
         self.centroid = np.array([0, 0, 0])
-        data = self.to_json(["vertices", "centroid", "area", "inertia_tensor"])
-        hoomd_dict = _map_dict_keys(data, key_mapping=_hoomd_dict_mapping)
-        hoomd_dict = {**hoomd_dict, **{"vertices": self.vertices[:, :2]}}
-        hoomd_dict["sweep_radius"] = 0.0
-
-        self.centroid = old_centroid
+        try:
+            data = self.to_json(["vertices", "centroid", "area", "inertia_tensor"])
+            hoomd_dict = _map_dict_keys(data, key_mapping=_hoomd_dict_mapping)
+            # Copy the geometry: the shape's own array moves back below.
+            hoomd_dict = {**hoomd_dict, **{"vertices": self.vertices[:, :2].copy()}}
+            hoomd_dict["sweep_radius"] = 0.0
+        finally:
+            self.centroid = old_centroid
         return hoomd_dict
